@@ -31,10 +31,11 @@ type queryRequest struct {
 }
 
 type queryEvent struct {
-	r   resource
-	sub *nats.Subscription
-	ch  chan *nats.Msg
-	cb  func(r QueryRequest)
+	r    resource
+	sub  *nats.Subscription
+	ch   chan *nats.Msg
+	cb   func(r QueryRequest)
+	done chan struct{} // Closed when the query event has expired
 }
 
 // Model sends a model response for the query request.
@@ -129,13 +130,40 @@ func (qr *queryRequest) Timeout(d time.Duration) {
 }
 
 // startQueryListener listens for query requests and passes them on to a worker.
+//
+// A nats subscription never closes the channel passed to ChanSubscribe, so the
+// listener stops once the query event has expired. Before stopping, it passes
+// on the requests already received and then enqueues the final callback call
+// with nil. Being enqueued last, from the same goroutine, the nil call is
+// the last call made to the callback.
 func (qe *queryEvent) startQueryListener() {
-	for m := range qe.ch {
-		m := m
-		qe.r.s.runWith(qe.r.Group(), func() {
-			qe.handleQueryRequest(m)
-		})
+	for {
+		select {
+		case m := <-qe.ch:
+			qe.forward(m)
+		case <-qe.done:
+			for {
+				select {
+				case m := <-qe.ch:
+					qe.forward(m)
+					continue
+				default:
+				}
+				break
+			}
+			qe.r.s.runWith(qe.r.Group(), func() {
+				qe.cb(nil)
+			})
+			return
+		}
 	}
+}
+
+// forward passes a query request on to a worker.
+func (qe *queryEvent) forward(m *nats.Msg) {
+	qe.r.s.runWith(qe.r.Group(), func() {
+		qe.handleQueryRequest(m)
+	})
 }
 
 // handleQueryRequest is called by the query listener on incoming query requests.
